@@ -373,3 +373,16 @@ package rsm
 
 //@ func (s *StateMachine) getSSMeta [C11 C08]
 //@ trusted serialises the session table (bytes.Buffer, encoding/json, LRU cache): outside the subset; touches no lock
+
+// ---------------------------------------------------------------- recovering from a snapshot (C08)
+// after applying a snapshot of an on-disk SM the on-disk index is the snapshot's; an imported
+// snapshot applied on initial recovery also resets the "already in the SM" watermark to it, so
+// that entries after the snapshot are applied (not skipped as already present)
+//@ func (s *StateMachine) applyOnDisk [C08 C11]
+//@ modifies s.onDiskIndex, s.onDiskInitIndex
+//@ ensures s.onDiskSM && s.onDiskIndex == ss.OnDiskIndex
+//@ ensures ss.Imported && init ==> s.onDiskInitIndex == ss.OnDiskIndex
+//@ ensures !(ss.Imported && init) ==> s.onDiskInitIndex == old(s.onDiskInitIndex)
+
+//@ func (s *StateMachine) entryInInitDiskSM [C08 C11]
+//@ ensures result == (s.onDiskSM && index <= s.onDiskInitIndex)
